@@ -273,14 +273,15 @@ def tree_records(root, workspaces=()) -> tuple:
     return {lab: entity_record(ent, canon) for lab, ent in labels.entities.items()}, labels
 
 
-def workspace_records(ws) -> dict:
+def workspace_records(ws, only=None) -> dict:
     """{uid hex: record} of EVERY entity reachable from the root of `ws` (labels = identifiers:
-    this snapshot is compared with itself at another time, never with a copy)."""
+    this snapshot is compared with itself at another time, never with a copy).  `only`: keys of
+    an earlier snapshot - entities that were not in it (the copy) are not walked."""
     labels = Labels()
     stack, seen = [ws.root], set()
     while stack:
         e = stack.pop()
-        if e.uid in seen:
+        if e.uid in seen or (only is not None and "id:" + e.uid.hex not in only):
             continue
         seen.add(e.uid)
         labels.by_uid[e.uid] = "id:" + e.uid.hex
@@ -468,7 +469,7 @@ def resolve(copy, copy_labels, path):
     if path == "type":
         return copy.entity_type
     if path.startswith("pg:"):
-        return [p for p in copy.property_groups or [] if p.name == path[3:]][0]
+        return (copy.property_groups or [])[int(path[3:])]
     if path.startswith("sub:"):
         rest = path[4:]
         as_type = rest.endswith("|type")
@@ -515,7 +516,12 @@ def poke(v, nested=False) -> bool:
         v["c12-poke"] = 1
         return True
     if isinstance(v, list):
-        v.append("c12-poke")
+        if v and isinstance(v[-1], (int, float)) and not isinstance(v[-1], bool):
+            v.append(v[-1] + 1.0)
+        elif v and isinstance(v[-1], dict):
+            v.append(dict(v[-1]))
+        else:
+            v.append("c12-poke")
         return True
     name = type(v).__name__
     if name == "ReferenceValueMap":
@@ -537,8 +543,9 @@ def edit_targets(copy, copy_labels, same_workspace) -> list:
     if not same_workspace:
         out.append(("type", copy.entity_type))
     if getattr(copy, "property_groups", None):
-        pg = sorted(copy.property_groups, key=lambda p: p.name)[0]
-        out.append((f"pg:{pg.name}", pg))
+        names = [p.name for p in copy.property_groups]
+        k = names.index(sorted(names)[0])
+        out.append((f"pg:{k}", copy.property_groups[k]))
     picked = {}
     for lab in sorted(copy_labels.entities):
         if lab == "@":
@@ -682,12 +689,9 @@ def prepare(history) -> dict:  # noqa: C901  pylint: disable=too-many-branches,t
     # ---- after the copy: source side
     obs["phase"] = "after-copy"
     st["parent_key"] = _parent_key(src, parent, same_ws)
-    all1 = workspace_records(ws_a)
+    all1 = workspace_records(ws_a, only=all0)
     st["all1"] = all1
     obs["source_live_diff"] = diff_records(all0, {k: v for k, v in all1.items() if k in all0}, ignore_children_of=st["parent_key"])
-    if twin is None:
-        dig1 = rawh5.digests(file_bytes(ws_a))
-        obs["file_diff"] = _fmt_diff(rawh5.diff_digests(st["dig0"], dig1))
     obs["parent_uid"] = str(_expected_parent(src, parent).uid) if (same_ws and _expected_parent(src, parent) is not None) else None
     if copy is None:
         return st
@@ -732,7 +736,7 @@ def run_edits(st, edits):
         obs["phase"] = f"edit:{edit}"
         info = apply_edit(copy, st["cpy_labels"], edit)
         obs["n_exec"] += 1
-        now = workspace_records(ws_a)
+        now = workspace_records(ws_a, only=all0)
         if info["status"] == "applied":
             info["live_diff"] = diff_records({k: v for k, v in prev_all.items() if k in all0}, {k: v for k, v in now.items() if k in all0})
         prev_all = now  # a refused edit is not judged (it may leave partial state); the next edit starts from here
@@ -1065,8 +1069,10 @@ def judge(history, obs) -> list:  # noqa: C901  pylint: disable=too-many-branche
             file_changed = True
             viol.append(("source-file-unchanged", _file_witness(key, comps), {"key": key, "components": comps}))
     # ---- copy equals source (meaningless once the source itself was changed: reported above)
+    live_unequal = []
     if not source_changed:
-        viol += compare_copy(history, obs, obs["src_recs"], obs["cpy_recs"], "live")
+        live_unequal = compare_copy(history, obs, obs["src_recs"], obs["cpy_recs"], "live")
+        viol += live_unequal
     if obs.get("pg_dangling"):
         viol.append(("copy-equals-source", "property-group-member-not-a-child-of-the-copy", {"groups": obs["pg_dangling"]}))
     for k in ("close_error", "reopen_error"):
@@ -1097,7 +1103,7 @@ def judge(history, obs) -> list:  # noqa: C901  pylint: disable=too-many-branche
             for key, comps in obs.get("final_file_diff") or []:
                 if not _allowed_file_change(key, comps, obs):
                     file_changed = True
-                    viol.append(("source-file-unchanged", _file_witness(key, comps) + "[after-close]", {"key": key, "components": comps}))
+                    viol.append(("source-file-unchanged", _file_witness(key, comps), {"key": key, "components": comps}))
         if not source_changed:
             seen = set()
             for e in obs.get("source_reopen_diff") or []:
@@ -1107,7 +1113,7 @@ def judge(history, obs) -> list:  # noqa: C901  pylint: disable=too-many-branche
                     viol.append(("source-unchanged", wit, {"entry": e[:5]}))
             if obs.get("reopen_missing"):
                 viol.append(("copy-equals-source", "absent-after-reopen:" + ("copy" if obs["reopen_missing"]["copy"] else "source"), obs["reopen_missing"]))
-            elif "src_recs_reopen" in obs and not seen:
+            elif "src_recs_reopen" in obs and not seen and not live_unequal:  # re-opened copies are judged when the live ones were equal
                 viol += compare_copy(history, obs, obs["src_recs_reopen"], obs["cpy_recs_reopen"], "reopen")
     return viol
 
@@ -1278,11 +1284,8 @@ def run_sequence(history) -> dict:
     unattributed = False
     for c, w, d in viol:
         if c == "copy-independent" and "edit_index" in d:
-            single = dict(history, edits=[history["edits"][d["edit_index"]]])
-            got = run_case_isolated(single)
-            res["n_exec"] += got["n_exec"]
-            same = [v for v in got["viol"] if v[1] == c and v[2] == w]
-            out += same if same else [[history, c, w, d]]
+            # seen right after edit k: the prefix up to k is a complete, replayable history
+            out.append([dict(history, edits=history["edits"][: d["edit_index"] + 1]), c, w, dict(d)])
         elif c == "copy-independent":
             unattributed = True
         else:
